@@ -339,6 +339,18 @@ def check_request(W, rec, attrs, env, hostile_vars, body=None, limits=None):
             r.max_content_length = limits[2]  # configuration the application sets (Flask's MAX_CONTENT_LENGTH)
     ok = True
     nt = any(is_nt(str(v)) for v in hostile_vars.values())
+    order = (len(repr(hostile_vars)) + len(body or b"")) % 4
+    if order in (1, 2):
+        # history on the request object: something upstream (a logging middleware, a signature check) has looked at the
+        # body - as text or as bytes - before the application reads anything else
+        rec.case()
+        rec.observe("requests_whose_body_was_read_first")
+        out0 = budget.run_with_budget((lambda: r.get_data(as_text=True)) if order == 1 else (lambda: r.get_data()))
+        if not report(rec, W, "Request.get_data(as_text=True)[first]" if order == 1 else "Request.get_data()[first]", out0, dict(case, attribute="get_data", first=True)):
+            ok = False
+        elif out0[0] == "ok" and not isinstance(out0[1], str if order == 1 else bytes):
+            rec.violation("C07/wrong-type:Request.get_data", f"get_data(as_text={order == 1}) returned {type(out0[1]).__name__}", dict(case, attribute="get_data"), monitor="return-type")
+        case = dict(case, body_read_first="text" if order == 1 else "bytes")
     for a in attrs:
         rec.case()
         rec.observe("request_attr_reads")
